@@ -23,8 +23,7 @@ def decl_unit(case, docs=False, extra_lines=(), uid=None, meta=None):
     if case.get("prelude_lines"):
         L += ["    " + l for l in case["prelude_lines"]]
     s0 = len(L)
-    for h in case.get("helpers", []):
-        L += ["    " + l for l in emit.helper_decl(h, docs=docs)]
+    L += ["    " + l for l in emit.helpers_block(case, docs=docs)]
     if len(L) > s0:
         parts.append(("helpers", s0 + 1, len(L)))
     s0 = len(L)
@@ -55,8 +54,7 @@ def pair_unit(uid, pos, neg, neg_first):
     for name, case in ((("neg", neg), ("pos", pos)) if neg_first else (("pos", pos), ("neg", neg))):
         L += ["    pub mod %s {" % name, "        #![allow(dead_code, non_camel_case_types, deprecated, unused_imports, unused_variables)]",
               "        use arbitrary_int::*;", "        use bitbybit::{bitenum, bitfield};"]
-        for h in case.get("helpers", []):
-            L += ["        " + l for l in emit.helper_decl(h)]
+        L += ["        " + l for l in emit.helpers_block(case)]
         s0 = len(L)
         L += ["        " + l for l in emit.bitfield_decl(case)]
         parts.append((name, s0 + 1, len(L)))
@@ -664,7 +662,7 @@ def idents_of(case):
         e = case["enum"]
         out |= {e["name"], "u%d" % e["bits"]}
         return out
-    out |= {case["name"], "Partial" + case["name"], "u%d" % case["base"], "DEFAULT_" + case["name"].upper()}
+    out |= {case["name"], "Partial" + case["name"], "u%d" % case["base"], "DEFAULT_" + case["name"].upper(), "inner"}
     for f in case["fields"]:
         out |= set(_re.findall(r"[A-Za-z_][A-Za-z0-9_]*", f["ty"]))
     for h in case.get("helpers", []):
